@@ -12,6 +12,10 @@
      descending_in tags ext l   the values of l applying in that context are listed newest first
                                 (non-strictly: a qualified and an unqualified value may share a date)
      prepare_rate_with          Combo.prepareRate
+     rate_def cat key           CategoryDef.RateDef AFTER the repair "a rate key is only resolved when its
+                                first component is a rate of the category" (Key.HasPrefix);
+     rate_def_shipped           the same with the second loop as shipped before it (Key.Has: any component)
+     first_part key             the text before the first `+` of a key (the whole key without `+`)
    The model is tied to the Go code by tools/props/c12.py (exhaustive boundary dates over every
    shipped table, through RateDef.Value, tax.TotalCalculator and bill.Invoice.Calculate). *)
 From Coq Require Import List ZArith Bool Sorting.Sorted.
@@ -96,6 +100,49 @@ Print Assumptions no_values_untouched.
 Theorem no_rate_key_untouched cat tags d c : cb_rate c = [] -> prepare_rate cat tags d c = inr c.
 Proof. exact (prepare_no_rate_key in_force cat tags d c). Qed.
 Print Assumptions no_rate_key_untouched.
+
+(* ---- which rate a key resolves to (CategoryDef.RateDef after the repair) ---- *)
+
+(* the rate a key resolves to is a rate of the category, and its key is the given key itself or the
+   FIRST `+` component of the given key *)
+Theorem rate_key_resolves_by_first_component cat key rate :
+  rate_def cat key = Some rate ->
+  In rate (cat_rates cat) /\ (rt_key rate = key \/ first_part key = rt_key rate).
+Proof. exact (rate_def_some cat key rate). Qed.
+Print Assumptions rate_key_resolves_by_first_component.
+
+(* no rate exactly when neither the key nor its first component is the key of a rate of the category *)
+Theorem rate_key_unresolved_iff cat key :
+  rate_def cat key = None <->
+  (forall r, In r (cat_rates cat) -> rt_key r <> key /\ first_part key <> rt_key r).
+Proof. exact (rate_def_none_iff cat key). Qed.
+Print Assumptions rate_key_unresolved_iff.
+
+(* extended keys stay accepted: a defined first component followed by free suffixes resolves *)
+Theorem rate_key_with_defined_first_component_resolves cat key r :
+  In r (cat_rates cat) -> first_part key = rt_key r -> exists r', rate_def cat key = Some r'.
+Proof. exact (rate_def_extended_key cat key r). Qed.
+Print Assumptions rate_key_with_defined_first_component_resolves.
+
+(* ... and the combo preparation fails with `invalid-rate` on every other key instead of borrowing the
+   percentage of a rate named in a later component *)
+Theorem undefined_first_component_is_invalid_rate cat tags d c :
+  cb_rate c <> [] ->
+  (forall r, In r (cat_rates cat) -> rt_key r <> cb_rate c /\ first_part (cb_rate c) <> rt_key r) ->
+  prepare_rate cat tags d c = inl ErrInvalidRate.
+Proof. exact (prepare_undefined_first_part in_force cat tags d c). Qed.
+Print Assumptions undefined_first_component_is_invalid_rate.
+
+(* With the second loop as shipped before the repair (`key.Has(r.Key)`) that statement was false:
+   `bogus+standard` resolved to the standard rate (and received its 21 %) although neither `bogus`
+   nor `bogus+standard` is a rate of the category. *)
+Theorem shipped_any_component_rate_key_refuted :
+  exists cat key r,
+    (forall r', In r' (cat_rates cat) -> rt_key r' <> key /\ first_part key <> rt_key r') /\
+    rate_def_shipped cat key = Some r /\ rt_key r = "standard"%bs /\ first_part key = "bogus"%bs /\
+    rate_def cat key = None.
+Proof. exact rate_def_shipped_any_part_witness. Qed.
+Print Assumptions shipped_any_component_rate_key_refuted.
 
 (* ---- generated data: every table the code registers now (Gen/Regimes.v) ---- *)
 
@@ -231,5 +278,22 @@ Example prepare_examples :
   prepare_rate cat [] (mkDate 2020 1 1) (c "special") = inr (c "special") /\
   prepare_rate cat [] (mkDate 1990 1 1) (c "standard") = inl ErrInvalidDate /\
   prepare_rate cat [] (mkDate 2020 1 1) (c "nope") = inl ErrInvalidRate /\
-  prepare_rate cat [] (mkDate 2020 1 1) (c "standard+eqs") = inr (mkCombo "standard+eqs" (Some (mkPct 210 3)) None [] false).
+  prepare_rate cat [] (mkDate 2020 1 1) (c "standard+eqs") = inr (mkCombo "standard+eqs" (Some (mkPct 210 3)) None [] false) /\
+  prepare_rate cat [] (mkDate 2020 1 1) (c "exempt+reverse-charge") = inr (mkCombo "exempt+reverse-charge" None None [] false) /\
+  prepare_rate cat [] (mkDate 2020 1 1) (c "bogus+standard") = inl ErrInvalidRate /\
+  prepare_rate cat [] (mkDate 2020 1 1) (c "bogus+standard+x") = inl ErrInvalidRate /\
+  prepare_rate cat [] (mkDate 2020 1 1) (c "eqs+standard") = inl ErrInvalidRate.
 Proof. vm_compute. repeat split. Qed.
+
+(* the hypotheses of the rate-key theorems are satisfiable: `bogus+standard` has no defined first
+   component in a category shaped like ES VAT, `standard+bogus` has *)
+Example rate_key_hypotheses_satisfiable :
+  (forall r, In r (cat_rates es_vat_like) -> rt_key r <> "bogus+standard" /\ first_part "bogus+standard" <> rt_key r) /\
+  first_part "standard+bogus" = "standard" /\
+  option_map rt_key (rate_def es_vat_like "standard+bogus") = Some "standard" /\
+  option_map rt_key (rate_def es_vat_like "standard+eqs") = Some "standard+eqs" /\
+  option_map rt_key (rate_def es_vat_like "standard+eqs+x") = Some "standard".
+Proof.
+  split; [|vm_compute; repeat split].
+  intros r [H|[H|[H|[]]]]; subst r; split; vm_compute; discriminate.
+Qed.
